@@ -344,6 +344,7 @@ func parseCallgrind(out string) (*parsedReport, error) {
 				fl, err = decode(k, v)
 			case "fn":
 				fn, err = decode(k, v)
+				fn = suffixRE.ReplaceAllString(fn, "")
 			case "cfl":
 				cfl, err = decode(k, v)
 			case "cfn":
@@ -354,10 +355,9 @@ func parseCallgrind(out string) (*parsedReport, error) {
 				if len(f) != 3 || cur == nil {
 					return nil, fmt.Errorf("callgrind: bad calls line %q", l)
 				}
-				var a uint64
-				if a, err = addrOf(f[1]); err == nil {
-					pendCallee = fmt.Sprintf("%s|%s|%#x|%s", cfl, cfn, a, f[2])
-				}
+				// the callee's sub-position (and the reference it is relative to) is property C18's
+				// business; the call is identified by callee file and name here
+				pendCallee = fmt.Sprintf("%s|%s", cfl, cfn)
 			default:
 				err = fmt.Errorf("callgrind: unknown line %q", l)
 			}
